@@ -300,5 +300,6 @@ pub fn run(tier: Tier, seed: u64) -> i32 {
         e1: false,
     };
     st.merge(crate::props::c13::api_use_part(&deadline));
+    st.merge(crate::props::c14::cloned_signal_list_part(&deadline));
     finish(meta, st, started)
 }
